@@ -15,6 +15,7 @@ Function Manifest for this Module
 from struct import pack
 
 import cryptography.exceptions
+from cryptography.hazmat.primitives import hashes
 from cryptography.hazmat.primitives.asymmetric import ed25519
 
 from .common import (
@@ -518,10 +519,7 @@ def verify_gpg_signature(signature, key_value, data):
 
     # As per RFC4880 Section 5.2.4., we need to hash the content,
     # signature headers and add a very opinionated trailing header
-    hasher = cryptography.hazmat.primitives.hashes.Hash(
-        cryptography.hazmat.primitives.hashes.SHA256(),
-        cryptography.hazmat.backends.default_backend(),
-    )
+    hasher = hashes.Hash(hashes.SHA256())
     hasher.update(data)
     hasher.update(additional_header_data)
     hasher.update(b"\x04\xff")
